@@ -26,6 +26,7 @@ import (
 	"log/slog"
 	"net"
 	"net/http"
+	"net/http/httptest"
 	"net/netip"
 	"net/url"
 	"os"
@@ -425,6 +426,20 @@ func serve(c *Case, withLogger bool) (*run, error) {
 	}
 	if _, err := f.Handle(regMethod, pattern, script, ropts...); err != nil {
 		return nil, err
+	}
+	// Dirty the context pool first: an unrelated route with its own resolver is served directly and through an ignored
+	// trailing slash, so that the judged request runs on a recycled context that last belonged to another route.
+	decoy := fox.ClientIPResolverFunc(func(fox.Context) (*net.IPAddr, error) { return &net.IPAddr{IP: net.ParseIP("198.51.100.99")}, nil })
+	if _, err := f.Handle(http.MethodGet, "/zz-c20-decoy/{x}/", func(fc fox.Context) { fc.Writer().WriteHeader(http.StatusNoContent) },
+		fox.WithClientIPResolver(decoy), fox.WithIgnoreTrailingSlash(true)); err == nil {
+		for _, p := range []string{"/zz-c20-decoy/1/", "/zz-c20-decoy/1"} {
+			func() {
+				defer func() { _ = recover() }()
+				f.ServeHTTP(httptest.NewRecorder(), httptest.NewRequest(http.MethodGet, "http://decoy.test"+p, nil))
+			}()
+		}
+		fresh := &run{errVal: r.errVal, w: r.w}
+		*r = *fresh
 	}
 	req := &http.Request{
 		Method: c.Method, URL: &url.URL{Scheme: "http", Host: "placeholder", Path: c.Path, RawQuery: c.Query},
